@@ -951,7 +951,10 @@ impl Formatter {
                 self.writer.write("f\"");
                 for part in parts {
                     match part {
-                        FStringPart::Literal(s) => self.writer.write(s),
+                        FStringPart::Literal(s) => {
+                            let escaped = escape_string(s).replace('{', "{{").replace('}', "}}");
+                            self.writer.write(&escaped)
+                        }
                         FStringPart::Expr(expr) => {
                             self.writer.write("{");
                             self.format_expr(&expr.node);
